@@ -356,7 +356,8 @@ class SplitList(AbsVal):
         self.hole, self.sep, self.lines = hole, sep, lines
         self.first = Hole(f"{hole.name}.split({sep!r})[0]", "split-first")
         self.rest = Hole(f"{hole.name}.split({sep!r})[1:]", "split-rest")
-        self.first.split_of = self.rest.split_of = (hole, sep)
+        # (splitlines() is not inverted by "\n".join: it also breaks at \r, \f, U+2028 ... and drops a final line break)
+        self.first.split_of = self.rest.split_of = (hole, sep if not lines else ("splitlines",))
 
     def __repr__(self):
         return f"split({self.hole!r}, {self.sep!r})"
@@ -533,6 +534,34 @@ class SymHooks:
         return NotImplemented
 
     def format(self, it, recv, args, kwargs):
+        if isinstance(recv, str):
+            # a constant template with plain `{}` / `{0}` / `{name}` fields: the text is the literal parts with the (symbolic)
+            # arguments in between - what an f-string with the same parts would give
+            import string
+            pieces, auto = [], 0
+            try:
+                for lit, field, spec, conv in string.Formatter().parse(recv):
+                    if lit:
+                        pieces.append(lit)
+                    if field is None:
+                        continue
+                    if spec or conv:
+                        pieces = None
+                        break
+                    if field == "":
+                        v, auto = args[auto], auto + 1
+                    elif field.isdigit():
+                        v = args[int(field)]
+                    else:
+                        v = kwargs[field]
+                    if isinstance(v, bool) or not isinstance(v, (str, int) + tuple(STRINGY)):
+                        pieces = None
+                        break
+                    pieces.append(str(v) if isinstance(v, int) else v)
+            except (ValueError, IndexError, KeyError):
+                pieces = None
+            if pieces is not None:
+                return Template(pieces) if pieces else ""
         return Fmt(recv, tuple(args), tuple(sorted(kwargs.items(), key=lambda kv: kv[0])))
 
     def binop(self, it, op, a, b):
